@@ -12,7 +12,7 @@ use serde_json::{json, Value as J};
 pub const KINDS: [&str; 10] = ["valid", "cycle", "mut-rules", "mut-data", "adversarial", "mut-template", "deep", "mut-both", "adv-yaml", "known-invalid"];
 
 /// hand-written shapes the parser accepts and the evaluator has few tests for
-const ADVERSARIAL: [&str; 50] = [
+const ADVERSARIAL: [&str; 55] = [
     "let x = \"lit\"\nrule r { %x !empty }",
     "let x = [1, 2]\nrule r { %x exists\n %x is_list }",
     "let x = 5\nrule r { %x == 5\n %x is_int\n %x empty }",
@@ -63,6 +63,12 @@ const ADVERSARIAL: [&str; 50] = [
     "let a1 = %b1\nlet b1 = %a1.c\nrule r { %a1 exists }",
     "rule r {\n  let v = %v\n  %v exists\n}",
     "let c = count(%c)\nrule r { %c == 0 }",
+    // clauses outside any rule: the default rule
+    "a exists\nb == 1 <<b must be one>>",
+    "a == \"no such value\"\nc.d exists",
+    "AWS::S3::Bucket {\n  Properties.nope exists\n}\nResources exists",
+    "when a exists {\n  b == \"nope\"\n}\nzz exists or a == 7",
+    "let x = a\n%x == \"never\"\nrule named { b exists }",
 ];
 
 const ADV_DOCS: [&str; 10] = [
